@@ -145,7 +145,7 @@ def build_driver(ctx):
     return rc == 0, out + out2 + (out3 if rc3 else '') + (out4 if rc4 else ''), time.time() - t
 
 
-def model_coverage(ctx, opsfiles):
+def model_coverage(ctx, opsfiles, sample=1):
     """run the profiling build of the extracted model over the operation files and report which
     branch counters of model.ml were never hit (a measurement of the streams, not a proof)"""
     prof = os.path.join(ctx.build, 'extract', 'prof')
@@ -155,17 +155,44 @@ def model_coverage(ctx, opsfiles):
     work = os.path.join(ctx.build, 'cov-%d' % os.getpid())
     shutil.rmtree(work, ignore_errors=True)
     os.makedirs(work)
+    # the profiling build is bytecode (about ten times slower than the native driver): long files are
+    # cut at `reset` lines into pieces of at most ~2500 operations that run in parallel; a single
+    # history longer than that is measured on its first 2500 operations; with sample > 1 only every
+    # sample-th history of a file with more than 64 histories is measured
+    pieces = []
+    for f in opsfiles:
+        hists = []
+        for ln in open(f):
+            if ln.startswith('reset') or not hists:
+                hists.append([])
+            if len(hists[-1]) < 2500:
+                hists[-1].append(ln)
+        if sample > 1 and len(hists) > 64:
+            hists = hists[::sample]
+        cur, n = [], 0
+        for h in hists:
+            if cur and n + len(h) > 2500:
+                pieces.append(cur)
+                cur, n = [], 0
+            cur.append(h)
+            n += len(h)
+        if cur:
+            pieces.append(cur)
     procs = []
-    for i, f in enumerate(opsfiles):
+    for i, piece in enumerate(pieces):
         d = os.path.join(work, str(i))
         os.makedirs(d)
-        procs.append(subprocess.Popen([exe, 'run', f], cwd=d, stdout=subprocess.DEVNULL, stderr=subprocess.DEVNULL))
+        pf = os.path.join(d, 'piece.ops')
+        with open(pf, 'w') as fo:
+            for h in piece:
+                fo.writelines(h)
+        procs.append(subprocess.Popen([exe, 'run', pf], cwd=d, stdout=subprocess.DEVNULL, stderr=subprocess.DEVNULL))
         if len(procs) % 16 == 0:
             for p in procs[-16:]:
                 p.wait()
     for p in procs:
         p.wait()
-    dumps = [os.path.join(work, str(i), 'ocamlprof.dump') for i in range(len(opsfiles))]
+    dumps = [os.path.join(work, str(i), 'ocamlprof.dump') for i in range(len(pieces))]
     dumps = [d for d in dumps if os.path.exists(d)]
     if not dumps:
         shutil.rmtree(work, ignore_errors=True)
@@ -191,7 +218,7 @@ def model_coverage(ctx, opsfiles):
             unhit[cur] = unhit.get(cur, 0) + z
     return {'branch_counters': total, 'never_hit': zero, 'hit_percent': round(100.0 * (total - zero) / max(total, 1), 1),
             'functions_with_unhit_branches': dict(sorted(unhit.items(), key=lambda kv: -kv[1])[:60]),
-            'files': len(opsfiles),
+            'files': len(opsfiles), 'pieces': len(pieces), 'history_sampling': sample,
             'how': 'extracted model compiled with ocamlcp -P a (bytecode, branch counters), run over the same operation files as the correspondence streams of this check'}
 
 
@@ -740,7 +767,7 @@ def check_property(ctx, pid, tier, seed, replay=None):
         for sname, trs in streams:
             sel = trs if (tier == 'thorough' or not sname.startswith('profile:')) else trs[:4]
             files += [opsf for (opsf, robs, mobs) in sel]
-        cov['model_coverage'] = model_coverage(ctx, files)
+        cov['model_coverage'] = model_coverage(ctx, files, sample=(1 if tier == 'thorough' else 6))
         cov['model_coverage']['wall_s'] = round(time.time() - t1, 1)
     return finish(ctx, pid, tier, seed, t0, spec, au, cov, violations, known_hits)
 
